@@ -78,16 +78,30 @@ func (m FileMatcher) Match(file *ast.File, d data.Data) (data.Data, bool) {
 	// A path that the file imports more than once can match an import of
 	// the patch in more than one way; when the name is a metavariable, the
 	// code has to be looked for under each of these names.
+	//
+	// The number of ways is the product, over the imports of the patch, of
+	// the number of times the file imports that path: two or three in real
+	// code. The search is cut off where only a contrived patch and file get
+	// to, where it would take hours over a file of a few lines.
 	var (
 		found data.Data
 		ok    bool
+		tries int
 	)
 	m.Imports.matchEach(file, d, func(d data.Data) bool {
+		if tries == maxImportMatches {
+			return true // give up
+		}
+		tries++
 		found, ok = m.matchNodes(file, d)
 		return ok
 	})
 	return found, ok
 }
+
+// maxImportMatches is the number of ways of matching the imports of a change
+// against those of a file under which the code of the change is looked for.
+const maxImportMatches = 256
 
 // matchNodes looks for the code of the change, given the data of its
 // matched imports.
